@@ -1,3 +1,4 @@
+import operator
 from datetime import datetime
 try:
     from functools import lru_cache
@@ -277,8 +278,26 @@ def _get_path(grid, obj, paths):
             if i != len(paths)-1 and isinstance(obj, Ref):
                 obj = grid[obj.name]  # Follow the reference
         return obj  # It's a value at this time
-    except KeyError:
+    except (KeyError, TypeError, IndexError):
+        # Absent tag, or a value that cannot be navigated into
         return NOT_FOUND
+
+
+_COMPARE = {
+    '==': operator.eq, '!=': operator.ne,
+    '<': operator.lt, '<=': operator.le,
+    '>': operator.gt, '>=': operator.ge,
+}
+
+
+def _compare(op, value, literal):
+    """
+    A comparison on an absent tag or between incomparable kinds is false.
+    """
+    try:
+        return bool(_COMPARE[op](value, literal))
+    except TypeError:
+        return False
 
 
 def _generate_filter_in_python(node, def_filter, consts=None):
@@ -286,6 +305,12 @@ def _generate_filter_in_python(node, def_filter, consts=None):
         consts = []
     if isinstance(node, FilterPath):
         def_filter.append("_get_path(_grid, _entity, %s)" % node.path)
+    elif isinstance(node, FilterBinary) and (node.op in _COMPARE):
+        def_filter.append("_compare(%r, " % node.op)
+        def_filter.extend(_generate_filter_in_python(node.left, [], consts))
+        def_filter.append(", ")
+        def_filter.extend(_generate_filter_in_python(node.right, [], consts))
+        def_filter.append(")")
     elif isinstance(node, FilterBinary):
         def_filter.append("(")
         def_filter.extend(_generate_filter_in_python(node.left, [], consts))
